@@ -75,7 +75,7 @@ func worker(r *ev.Run) {
 		x := newExplorer(r, w, p.Depth, p.Wide)
 		for _, t := range x.tasks(p.Roles) {
 			n++
-			if n%*nshards != *shard {
+			if n%*nshards != *shard || (os.Getenv("C09_ROOTS_ONLY") != "" && t.First >= 0) {
 				continue
 			}
 			x.order = n
@@ -233,7 +233,7 @@ func report(r *ev.Run, t *result, ps []pass, workers int) {
 		"BLS signatures are real but not checked by message validation (qbftConfig.VerifySignatures=false); the envelope RSA signature is checked by the oracle with crypto/rsa",
 		"windows used by the oracle: early = slot starts more than 50 ms after the receive instant; late = current slot > message slot + 34 (attester, aggregator) / + 3 (proposer, sync committee, contribution); rounds: <= 12 / 6 per role and <= estimated round + 1 (2 s rounds up to 8, 2 min afterwards)",
 		"per-signer record = messages the validator itself accepted earlier in the history (consensus messages only)",
-		"round-0 proposals are not in the alphabet (they crash the leader computation: C08's finding)",
+		"a panic inside validation is recorded as its own outcome (C08's property), never as an accept",
 	)
 	var sigs []string
 	counts := map[string]int{}
